@@ -1,10 +1,153 @@
 import CueVerif.Driver.Proto
+import CueVerif.Spec.ModCache
+/-!
+Driver for C16.  Snapshots of one module version's on-disk state travel as
+  d<D>,m<M>,z<Z>,t<T>,l<L>,f<F>,u<U>
+  D: `-` | <k><+…><g|b>   M,L: 0|1   Z,F: `-`|p|f   T,U: `-` | sorted letters f/p
+Ops:
+  trace <kind> <n> <fault> <init> <ret> <hook>=<snap>…   → ok <#events> | mismatch …
+  crashat <kind> <n> <init> <k>                          → <snap> | done
+  safe <n> <snap>                                        → true | false
+-/
 namespace CueVerif.Driver.C16
-open CueVerif CueVerif.Driver
+open CueVerif CueVerif.Driver CueVerif.ModCache
 
-/-- protocol handler for C16: words of one op line (after the property id) → answer -/
+def parseBlob (s : String) : Option (Option Blob) :=
+  if s == "-" then some none else if s == "p" then some (some .part)
+  else if s == "f" then some (some .full) else none
+
+def parseTmps (s : String) : Option Tmps :=
+  if s == "-" then some [] else
+  let rec go (i : Nat) : List Char → Option Tmps
+    | [] => some []
+    | c :: r =>
+      (if c == 'f' then some Blob.full else if c == 'p' then some Blob.part else none).bind fun b =>
+        (go (i + 1) r).map fun l => (i, b) :: l
+  go 0 s.toList
+
+def parseDir (s : String) : Option (Option DirSt) :=
+  if s == "-" then some none else
+  let cs := s.toList
+  let ds := cs.takeWhile Char.isDigit
+  let rest := cs.dropWhile Char.isDigit
+  let plus := rest.takeWhile (· == '+')
+  let q := rest.dropWhile (· == '+')
+  match (String.ofList ds).toNat?, q with
+  | some k, ['g'] => some (some ⟨k, plus.length > 0, plus.length ≤ 1⟩)
+  | some k, ['b'] => some (some ⟨k, plus.length > 0, false⟩)
+  | _, _ => none
+
+def parseBit (s : String) : Option Bool :=
+  if s == "0" then some false else if s == "1" then some true else none
+
+/-- the thread every trace is about -/
+def me : Tid := (0, 0)
+/-- some other live process (only used when a snapshot says the lock is held) -/
+def other : Tid := (7, 0)
+
+def parseSnap (s : String) : Option VSt :=
+  match s.splitOn "," with
+  | [d, m, z, t, l, f, u] =>
+    if d.startsWith "d" && m.startsWith "m" && z.startsWith "z" && t.startsWith "t" &&
+       l.startsWith "l" && f.startsWith "f" && u.startsWith "u" then do
+      let dir ← parseDir (d.drop 1).toString
+      let mark ← parseBit (m.drop 1).toString
+      let zip ← parseBlob (z.drop 1).toString
+      let zt ← parseTmps (t.drop 1).toString
+      let lk ← parseBit (l.drop 1).toString
+      let modf ← parseBlob (f.drop 1).toString
+      let mt ← parseTmps (u.drop 1).toString
+      pure { VSt.init with dir := dir, mark := mark, zip := zip, ztmps := zt, modf := modf, mtmps := mt,
+                           lock := if lk then some other else none }
+    else none
+  | _ => none
+
+def showBlob : Option Blob → String
+  | none => "-" | some .part => "p" | some .full => "f"
+
+def showTmps (l : Tmps) : String :=
+  if l.isEmpty then "-" else
+  String.ofList ((l.filter (·.2 == .full)).map (fun _ => 'f') ++ (l.filter (·.2 == .part)).map (fun _ => 'p'))
+
+def showDir : Option DirSt → String
+  | none => "-"
+  | some d => s!"{d.files}{if d.cur then "+" else ""}{if d.good then "g" else "b"}"
+
+def showSnap (s : VSt) : String :=
+  s!"d{showDir s.dir},m{if s.mark then 1 else 0},z{showBlob s.zip},t{showTmps s.ztmps},l{if s.lock.isSome then 1 else 0},f{showBlob s.modf},u{showTmps s.mtmps}"
+
+def parseKind (s : String) : Option Start :=
+  if s == "fetch" then some .fetch else if s == "modfile" then some .modFile
+  else if s == "fromcache" then some .fetchFromCache else none
+
+structure Run where
+  events : List (String × VSt) := []
+  evs : List Ev := []
+  final : VSt
+  blocked : Bool := false
+
+/-- run thread `me` alone from `s0`: first the start step, then to completion; the registry
+fails once according to `fault` -/
+def runTrace (n : Nat) (kind : Start) (fault : String) (s0 : VSt) : Run :=
+  let rec go (fuel : Nat) (s : VSt) (r : Run) : Run :=
+    match fuel with
+    | 0 => { r with final := s, blocked := true }
+    | fuel + 1 =>
+      match s.pc me with
+      | .idle => { r with final := s }
+      | pc =>
+        let flt := match pc with
+          | .zGet _ => fault == "get"
+          | .mGet => fault == "get"
+          | .zCopy _ => fault == "copy"
+          | _ => false
+        match next n s me (choiceFor s me .none flt) with
+        | none => { r with final := s, blocked := true }
+        | some (s', o) =>
+          go fuel s' { r with evs := r.evs ++ [o.ev],
+                              events := match o.hook with
+                                | some h => r.events ++ [(h, s')]
+                                | none => r.events }
+  match next n s0 me { start := kind } with
+  | none => { final := s0, blocked := true }
+  | some (s1, _) => go (fuelFor n s0 + 2 * n + 60) s1 { final := s1 }
+
+def retOf (evs : List Ev) : String :=
+  if evs.contains .err then "err" else if evs.contains .avail then "avail" else "ok"
+
+def checkEvents (n : Nat) : Nat → List (String × VSt) → List String → String
+  | k, [], [] => s!"ok {k}"
+  | k, (h, s) :: _, [] => s!"mismatch at {k}: model continues with {h}={showSnap s}, implementation stopped"
+  | k, [], w :: _ => s!"mismatch at {k}: model stopped, implementation continues with {w}"
+  | k, (h, s) :: r, w :: ws =>
+    let m := s!"{h}={showSnap s}"
+    if m != w then s!"mismatch at {k}: model={m} impl={w}"
+    else if !(safeB n s) then s!"unsafe model state at {k}: {m}"
+    else checkEvents n (k + 1) r ws
+
 def handle (ws : List String) : String :=
   match ws with
+  | "trace" :: kind :: n :: fault :: init :: ret :: evs =>
+    match parseKind kind, n.toNat?, parseSnap init with
+    | some k, some n, some s0 =>
+      let r := runTrace n k fault s0
+      if r.blocked then "model-blocked"
+      else if retOf r.evs != ret then s!"mismatch ret: model={retOf r.evs} impl={ret}"
+      else checkEvents n 0 r.events evs
+    | _, _, _ => "bad-op"
+  | ["crashat", kind, n, init, k] =>
+    match parseKind kind, n.toNat?, parseSnap init, k.toNat? with
+    | some kd, some n, some s0, some k =>
+      let r := runTrace n kd "none" s0
+      if k = 0 then "bad-op" else
+      match r.events[k - 1]? with
+      | some (_, s) => showSnap (crash s me.1)
+      | none => "done"
+    | _, _, _, _ => "bad-op"
+  | ["safe", n, snap] =>
+    match n.toNat?, parseSnap snap with
+    | some n, some s => boolStr (safeB n s)
+    | _, _ => "bad-op"
   | _ => "bad-op"
 
 end CueVerif.Driver.C16
